@@ -17,7 +17,20 @@ func verifSameIPNet(a, b *net.IPNet) bool {
 // Serialising then restoring an IPAllocator after any bounded history yields one that answers every query
 // identically.
 func VerifC12_BitmapRoundTrip() {
-	a, err := NewIPAllocator("10.7.0.0/30", 32)
+	v6 := ndPick("family", 2) == 1
+	prefix := func(i int) *net.IPNet {
+		if v6 {
+			return &net.IPNet{IP: net.IP{0x20, 0x01, 0x0d, 0xb8, 0, 0, 0, byte(8 + i), 0, 0, 0, 0, 0, 0, 0, 0}, Mask: net.CIDRMask(64, 128)}
+		}
+		return verifPrefix(i)
+	}
+	var a *IPAllocator
+	var err error
+	if v6 {
+		a, err = NewIPAllocator("2001:db8:0:8::/62", 64)
+	} else {
+		a, err = NewIPAllocator("10.7.0.0/30", 32)
+	}
 	vAssume(err == nil)
 	k := vParam("K", 3)
 	for i := 0; i < k; i++ {
@@ -28,27 +41,49 @@ func VerifC12_BitmapRoundTrip() {
 		case 1:
 			_ = a.Release(sub)
 		case 2:
-			_ = a.AllocateSpecific(sub, verifPrefix(ndPick("addr", 4)))
+			_ = a.AllocateSpecific(sub, prefix(ndPick("addr", 4)))
 		case 3:
-			_ = a.SetAllocation(sub, verifPrefix(ndPick("addr", 4)))
+			_ = a.SetAllocation(sub, prefix(ndPick("addr", 4)))
 		}
 	}
 	data, merr := a.MarshalJSON()
 	vAssume(merr == nil)
+	// restored into a fresh allocator, or into one that served a pool of the other family before
 	b := &IPAllocator{}
+	if ndPick("target", 2) == 1 {
+		if v6 {
+			b, err = NewIPAllocator("10.9.0.0/30", 32)
+		} else {
+			b, err = NewIPAllocator("2001:db8:0:10::/62", 64)
+		}
+		vAssume(err == nil)
+		_, _ = b.Allocate("someone")
+	}
 	vAssert(b.UnmarshalJSON(data) == nil, "restoring a serialised allocator failed")
+	vAssert(a.IsIPv6() == b.IsIPv6() && a.PrefixLength() == b.PrefixLength(), "restored allocator reports another address family or prefix length")
 	for _, s := range vKeys[:3] {
 		vAssert(verifSameIPNet(a.Lookup(s), b.Lookup(s)), "restored allocator answers Lookup differently")
 	}
 	for i := 0; i < 4; i++ {
-		p := verifPrefix(i)
+		p := prefix(i)
 		vAssert(a.LookupByPrefix(p) == b.LookupByPrefix(p), "restored allocator answers LookupByPrefix differently")
 		vAssert(a.IsAllocated(p) == b.IsAllocated(p), "restored allocator answers IsAllocated differently")
+		vAssert(a.Contains(p) == b.Contains(p), "restored allocator answers Contains differently")
 	}
 	aa, at, _ := a.Stats()
 	ba, bt, _ := b.Stats()
 	vAssert(aa == ba && at == bt, "restored allocator answers Stats differently")
-	vAssert(len(a.ListAllocations()) == len(b.ListAllocations()), "restored allocator lists a different number of allocations")
+	la, lb := a.ListAllocations(), b.ListAllocations()
+	vAssert(len(la) == len(lb), "restored allocator lists a different number of allocations")
+	for _, x := range la {
+		found := false
+		for _, y := range lb {
+			if x.SubscriberID == y.SubscriberID && verifSameIPNet(x.Prefix, y.Prefix) {
+				found = true
+			}
+		}
+		vAssert(found, "restored allocator lists an allocation differently")
+	}
 	// and it keeps allocating without handing out a held address
 	for _, s := range vKeys[:3] {
 		if b.Lookup(s) == nil {
